@@ -204,6 +204,21 @@ pub fn posthoc(pre: &World, post: &World, res: &mut EvalOut) -> PostHoc {
                 let same = match (h_in.get(k), h_out.get(k)) {
                     (Some(a), Some(b)) => a == b || !post.altered(&k[..k.len() - j.len() - 3], j, a, b),
                     (None, None) => true,
+                    (None, Some(b)) if res.flipped.contains(j) && ids.contains_key(upstream) => {
+                        // skipped (= recorded against the current name of a renamed upstream)
+                        // before the upstream failure reached it: the new key must carry what the
+                        // job's record under the old name said, as judged by the comparison
+                        let parts: BTreeSet<&str> = upstream.split(":::").collect();
+                        dep_index.get(j.as_str()).map(|keys| {
+                            keys.iter().any(|ok| {
+                                let old_up = &ok[..ok.len() - j.len() - 3];
+                                old_up != upstream
+                                    && post.superseded(old_up, &ids)
+                                    && old_up.split(":::").any(|p| parts.contains(p))
+                                    && h_in.get(*ok).map(|a| !post.altered(upstream, j, a, b)).unwrap_or(false)
+                            })
+                        }).unwrap_or(false)
+                    }
                     _ => false,
                 };
                 if !same {
